@@ -1,8 +1,11 @@
 package msgpackpatch
 
 import (
+	"bytes"
 	"errors"
 	"fmt"
+
+	"github.com/vmihailenco/msgpack/v5"
 )
 
 // OpKind identifies a mutation operation.
@@ -50,11 +53,46 @@ func Apply(blob []byte, ops []Op) ([]byte, error) {
 		if err != nil {
 			return nil, fmt.Errorf("op %d (%s): %w", i, opName(op.Kind), err)
 		}
+		if err := validateOpValue(op); err != nil {
+			return nil, fmt.Errorf("op %d (%s): %w", i, opName(op.Kind), err)
+		}
 		if err := applyOp(skel, blob, op, path); err != nil {
 			return nil, fmt.Errorf("op %d (%s): %w", i, opName(op.Kind), err)
 		}
 	}
 	return skel.Serialize(blob)
+}
+
+// validateOpValue rejects an op Value that is not exactly one well-formed
+// msgpack value. Values are spliced into the output verbatim, so a truncated
+// value or one with trailing bytes would otherwise produce a body that no
+// reader (including the next patch) can parse. Empty values are left to the
+// individual ops, which report ErrInvalidOp.
+func validateOpValue(op Op) error {
+	switch op.Kind {
+	case OpSet, OpInc, OpAppend, OpPrepend, OpRemoveVal, OpMerge:
+	default:
+		return nil
+	}
+	return validateValue(op.Value)
+}
+
+// validateValue checks that raw is empty or exactly one well-formed msgpack
+// value. It walks the value without allocating, so a hostile header that
+// declares 2^32-1 entries fails fast with an EOF instead of being handed to a
+// decoder that pre-allocates the declared length.
+func validateValue(raw []byte) error {
+	if len(raw) == 0 {
+		return nil
+	}
+	r := bytes.NewReader(raw)
+	if err := msgpack.NewDecoder(r).Skip(); err != nil {
+		return wrapInvalid(err)
+	}
+	if r.Len() != 0 {
+		return fmt.Errorf("%w: %d trailing bytes after the value", ErrInvalidMsgpack, r.Len())
+	}
+	return nil
 }
 
 func applyOp(skel *Skeleton, orig []byte, op Op, path *Path) error {
